@@ -17,12 +17,16 @@
         skeleton of every modelled function equals the one regenerated from the current C source, the wrapper
         macros have the expected success tests, and no I/O call site of any of the 25 anchored functions drops its
         result (one site excused, see FaultProofs.v).
-    PARTIAL: [anchored_table_fault_visible_partial] -- for the anchored functions that have no control-flow model
-    (Vdetach, VSdetach, HMCPcloseAID, HMCPendaccess, mcache_sync, ncclose, NC_free_cdf, hdf_close, hdf_xdr_cdf,
-    xdr_cdf, SDend, SDendaccess, HPread_drec) the theorem is about ANY program over the classified sites; that the C
-    function's control flow is such a program rests on the translator's classification and on the workload-level
-    correspondence (every fault index of 20 workloads), not on a proof.  Crash / hang / memory safety is decided by
-    the sanitizer runs only. *)
+    (4) [upper_model_matches_source], [anchored_functions_fault_visible]: the 13 anchored functions above L1 (Vdetach,
+        VSdetach, HMCPcloseAID, HMCPendaccess, mcache_sync, ncclose, NC_free_cdf, hdf_close, hdf_xdr_cdf, xdr_cdf,
+        SDend, SDendaccess, HPread_drec) have control-flow terms too -- branches on library data, loop counts and
+        the behaviour of callees outside the model are taken from an environment of choices over which the theorem
+        quantifies -- with call-site skeletons equal to the generated tables, and all 25 are fault-visible.
+        Preconditions that remain: ncclose / SDend not in netCDF define mode ([ncclose_define_mode_refuted] shows
+        why); hdf_xdr_cdf's XDR_DECODE branch (SDstart, not the close path) is not modelled; callees outside the
+        model (Hputelement, Vend, VSwrite, Hclose seen from NC_free_cdf ...) are assumed to make checked device
+        calls, i.e. to be fault-visible themselves.
+    Crash / hang / memory safety is decided by the sanitizer runs only. *)
 From Coq Require Import ZArith List Bool String.
 Require Import H4.gen.Gen_Faults H4.FaultSpec H4.FaultModel H4.FaultProofs.
 Import ListNotations.
@@ -106,12 +110,54 @@ Theorem anchored_covers :
 Proof. exact anchored_covers_lemma. Qed.
 Print Assumptions anchored_covers.
 
-(** PARTIAL (see header): any control flow over call sites none of which is dropped is fault-visible, and its own
-    site list is then free of dropped sites; missing: a proof that each table-only C function IS such a program. *)
-Theorem anchored_table_fault_visible_partial : forall (St : Type) (p : prog St), no_dropped St p = true ->
+(** (4) every one of the 25 anchored functions: a control-flow term whose call-site skeleton equals the generated
+    table ([model_matches_source] for L1, [upper_model_matches_source] for the rest) and which is fault-visible for
+    every state / every resolution of its data-dependent branches, loop counts and callee behaviour; ncclose and
+    SDend outside netCDF define mode (SDstart clears NC_INDEF: regenerated fact) *)
+Theorem upper_model_matches_source :
+  sites genv HPread_drec_prog = norm_sites sites_HPread_drec /\
+  sites genv Vdetach_prog = norm_sites sites_Vdetach /\
+  sites genv VSdetach_prog = norm_sites sites_VSdetach /\
+  sites genv mcache_sync_prog = norm_sites sites_mcache_sync /\
+  sites genv HMCPcloseAID_prog = norm_sites sites_HMCPcloseAID /\
+  sites genv HMCPendaccess_prog = norm_sites sites_HMCPendaccess /\
+  sites genv NC_free_cdf_prog = norm_sites sites_NC_free_cdf /\
+  sites genv hdf_close_prog = norm_sites sites_hdf_close /\
+  sites genv hdf_xdr_cdf_prog = norm_sites sites_hdf_xdr_cdf /\
+  sites genv xdr_cdf_prog = norm_sites sites_xdr_cdf /\
+  sites genv ncclose_prog = norm_sites sites_ncclose /\
+  sites genv SDend_prog = norm_sites sites_SDend /\
+  sites genv SDendaccess_prog = norm_sites sites_SDendaccess.
+Proof. exact upper_model_matches_source_lemma. Qed.
+Print Assumptions upper_model_matches_source.
+
+Theorem anchored_functions_fault_visible :
+  ((forall off, visible_prog frec (HPseek_prog off)) /\ (forall n, visible_prog frec (HP_write_prog n)) /\
+   (forall n, visible_prog frec (HP_read_prog n)) /\ visible_prog frec hi_close_prog /\
+   visible_prog frec HIextend_file_prog /\ visible_prog frec HTPsync_prog /\ visible_prog frec HIsync_prog /\
+   visible_prog frec HTPend_prog /\ visible_prog frec HIupdate_version_prog /\ visible_prog frec Hsync_prog /\
+   visible_prog frec Hclose_prog) /\
+  (visible_prog genv HPread_drec_prog /\ visible_prog genv Vdetach_prog /\ visible_prog genv VSdetach_prog /\
+   visible_prog genv mcache_sync_prog /\ visible_prog genv HMCPcloseAID_prog /\
+   visible_prog genv HMCPendaccess_prog /\ visible_prog genv NC_free_cdf_prog /\ visible_prog genv hdf_close_prog /\
+   visible_prog genv hdf_xdr_cdf_prog /\ visible_prog genv xdr_cdf_prog /\ visible_prog genv SDendaccess_prog) /\
+  (fact_SDstart_clears_NC_INDEF = true /\ visible_from genv not_indef ncclose_prog /\
+   visible_from genv not_indef SDend_prog).
+Proof. exact anchored_functions_fault_visible_lemma. Qed.
+Print Assumptions anchored_functions_fault_visible.
+
+(** in netCDF define mode ncclose as written does swallow a failure (NC_endef fails, ncabort succeeds, 0 returned):
+    the reason for the precondition above; not reachable through the SD interface *)
+Theorem ncclose_define_mode_refuted :
+  exists st o st' o' tr, indef st = true /\ run_fn genv ncclose_prog st o = (true, st', o', tr) /\ clean tr = false.
+Proof. exact ncclose_indef_refuted_lemma. Qed.
+Print Assumptions ncclose_define_mode_refuted.
+
+(** the generic form behind (4): any control flow over call sites none of which is dropped *)
+Theorem anchored_table_fault_visible : forall (St : Type) (p : prog St), no_dropped St p = true ->
   visible_prog St p /\ forallb (fun s => cls_ok (snd s)) (sites St p) = true.
-Proof. exact anchored_table_fault_visible_partial_lemma. Qed.
-Print Assumptions anchored_table_fault_visible_partial.
+Proof. exact anchored_table_fault_visible_lemma. Qed.
+Print Assumptions anchored_table_fault_visible.
 
 (** S-level: the two formulations of the property on observations *)
 Theorem visible_implies_judge : forall o,
@@ -161,3 +207,12 @@ Example judge_examples :
   judge {| o_status := StSanitizer; o_rets := [true]; o_faults := 1%N; o_same_file := true; o_same_data := true |} = Unsafe /\
   judge {| o_status := StOk; o_rets := [true; false]; o_faults := 1%N; o_same_file := false; o_same_data := true |} = Holds.
 Proof. repeat split. Qed.
+
+(** the upper functions: SDend through xdr_cdf, hdf_close (two open variables) and NC_free_cdf makes 15 device calls in
+    this environment; a single fault at any of them makes SDend return FAIL *)
+Example sdend_every_fault_reported :
+  (let '(ok, _, _, tr) := run_fn genv SDend_prog env_sdend [] in (ok, List.length tr)) = (true, 15%nat) /\
+  map (fun k => let '(ok, _, _, _) := run_fn genv SDend_prog env_sdend (plan k false 0) in ok) (seq 0 17) =
+  [false; false; false; false; false; false; false; false; false; false; false; false; false; false; false; true; true] /\
+  not_indef env_sdend.
+Proof. repeat split; vm_compute; reflexivity. Qed.
